@@ -263,10 +263,14 @@ def o125(ctx):
             ctx.finding(q, c, f"unexpected option {k.arg} on the Gaussian", c, m)
 
 
-def obligations():
+def _obligations():
     return [
         Obligation("O12.1", "hard-edged gains: lowpass 1 iff |k| <= cutoff, highpass complement, bandpass difference; linear/real/shift-commuting", o121, floor=360),
         Obligation("O12.2", "soft-edged variants use the same pipeline, caller's gaussian, edge blur, input shape, default centre", o122, floor=10),
         Obligation("O12.3", "resolution2pixels = round(edge*px/res), pixels2resolution, get_filter_radius and cutoff plumbing", o123, floor=7),
         Obligation("O12.5", "Gaussian edge runs with the installed 4-sigma truncation and the requested sigma", o125, floor=2),
     ]
+
+
+def obligations():
+    return _obligations() + [effects_obligation("C12")]
